@@ -414,6 +414,100 @@ def size_sweep(res: Result, counter: list[int]) -> int:
     return n
 
 
+def reaction_sweep(res: Result, counter: list[int]) -> dict[str, Any]:
+    """What the client writes *in reaction to* device traffic: with every client-level subscription active (voice-assistant start handler
+    once answering at once, once still busy), every server- or both-originated message is delivered twice in a row; every frame the
+    client writes back must be a defined client- or both-originated type."""
+    from aioesphomeapi.core import MESSAGE_TYPE_TO_PROTO
+
+    pf = env.proto()
+    ids = env.proto_ids()
+    n = 0
+    ended_session: set[str] = set()
+    names = [c.__name__ for c in MESSAGE_TYPE_TO_PROTO.values()]
+    order = [x for x in names if x != "DisconnectRequest"] + ["DisconnectRequest"]
+    order = [x for x in order if x in ids.values() and protoparse.source_of(pf, x) != "SOURCE_CLIENT"]
+
+    def session(noise: bool, start_mode: str) -> tuple[ConnWorld, list[Any]]:
+        w = ConnWorld(client=True, login=True, noise=noise)
+        w.connect_fully()
+        cl = w.client
+        gates: list[Any] = []
+
+        async def h_start(conversation_id: str, flags: int, audio_settings: Any, wake_word_phrase: Any) -> int | None:
+            if start_mode == "busy":
+                g = w.loop.create_future()
+                gates.append(g)
+                return await g
+            return 6000
+
+        async def h_stop(abort: bool) -> None:
+            return None
+
+        async def h_audio(data: bytes) -> None:
+            return None
+
+        async def h_ann(finished: Any) -> None:
+            return None
+
+        cl.subscribe_states(lambda st: None)
+        cl.subscribe_logs(lambda m: None)
+        cl.subscribe_service_calls(lambda m: None)
+        cl.subscribe_home_assistant_states(lambda a, b: None, lambda a, b: None)
+        cl.subscribe_bluetooth_le_advertisements(lambda m: None)
+        cl.subscribe_bluetooth_connections_free(lambda a, b: None)
+        cl.subscribe_voice_assistant(handle_start=h_start, handle_stop=h_stop, handle_audio=h_audio, handle_announcement_finished=h_ann)
+        w.drain()
+        return w, gates
+
+    for noise in (False, True):
+        for start_mode in ("answers", "busy"):
+            w, gates = session(noise, start_mode)
+            try:
+                for name in order:
+                    if w.sock is None or w.sock.closed:
+                        w.close()
+                        w, gates = session(noise, start_mode)
+                    before = len(w.sent_frames())
+                    sock = w.sock
+                    for salt in (1, 2):
+                        m = pbgen.populate(getattr(env.pb(), name)(), salt)
+                        if name == "VoiceAssistantRequest":
+                            m.start = True
+                        w.io_chunk(sock, w.dframe(m))
+                        w.drain()
+                        if sock.closed:
+                            break
+                    counter[0] += 1
+                    n += 1
+                    if sock.closed and name != "DisconnectRequest":
+                        # the generated field values made no sense to a converter (e.g. a UUID string that is not hexadecimal): the
+                        # session ended; what was written until then still counts, the next message gets a fresh session
+                        ended_session.add(name)
+                    try:
+                        frames = [(t, p) for t, p in (wire_frames(w, sock))][before:]
+                    except Exception as e:  # noqa: BLE001
+                        res.add(f"reaction:{name}:undecodable", f"what the client wrote after receiving {name} twice does not decode: {type(e).__name__}: {e}")
+                        continue
+                    for t, _ in frames:
+                        nm = ids.get(t)
+                        if nm is None:
+                            res.add(f"reaction:{name}:unknown{t}", f"after receiving {name} twice ({start_mode} start handler) the client wrote type {t}, which api.proto does not define")
+                        elif protoparse.source_of(pf, nm) == "SOURCE_SERVER":
+                            res.add(f"reaction:{name}:{nm}", f"after receiving {name} twice ({start_mode} start handler) the client wrote {nm}, which api.proto marks server-originated")
+                for g in gates:
+                    if not g.done():
+                        g.cancel()
+                w.drain()
+            finally:
+                w.close()
+    return {"reactions_to_device_messages": n, "reaction_messages_that_ended_the_session": sorted(ended_session)}
+
+
+def wire_frames(w: ConnWorld, sock: Any) -> list[tuple[int, bytes]]:
+    return w.sent_frames(sock)
+
+
 def dispatch_sweep(res: Result, counter: list[int]) -> int:
     """Receive side of 'positional lookup selects the right class for every id and nothing else is present': every declared id, and the
     ids that would alias onto a declared one if a byte of the type were lost, through both frame helpers of a connected session."""
@@ -534,6 +628,7 @@ def run(tier: str, seed: int) -> Result:
     sweep = direction_sweep(res, counter)
     sweep["frames_dispatched_by_id"] = dispatched
     sweep["sized_frames_sent"] = size_sweep(res, counter)
+    sweep.update(reaction_sweep(res, counter))
     sweep["structural_comparison_repeated_on_backend"] = backend
     if not res.violations and (len(ids) < 100 or sweep["api_calls"] < 150 or len(sweep["types_sent"]) < 40):
         raise HarnessError(f"vacuous: ids={len(ids)} sweep={sweep['api_calls']} sent={len(sweep['types_sent'])}")
